@@ -44,7 +44,7 @@ def b32_values():
 def shards(tier, seed):
     sh = [("logical", t, lo) for t in LTYPES for lo in range(0, 65536, 8192)]
     sh += [("logical32", t) for t in LTYPES]
-    sh += [("reqpath",), ("ports",), ("symbols",), ("epathopts",), ("seghist",)]
+    sh += [("reqpath",), ("ports",), ("symbols",), ("epathopts",), ("seghist",), ("longpath",)]
     sh += [("tags", i) for i in range(16)]
     sh += [("route-history", i) for i in range(3)]
     sh += [("upload-paths", pn, pers) for pn in ("P3", "P4", "P2") for pers in ("v20", "v32")] + [("upload-paths", "P3", "m800"), ("upload-paths", "P1", "m800")]
@@ -273,6 +273,39 @@ def check_epathopts(rep):
         rep.case(("epathbytes", repr(want)), outcome="ok" if p == ("ok", want) else "bad")
         if p != ("ok", want):
             rep.violation("epath/bytes-passthrough", f"PADDED_EPATH.encode(pre-encoded bytes) -> {r!r:.100}; parser {p!r:.100}", {"kind": "epathbytes", "want": repr(want)})
+
+
+def check_long_paths(rep):
+    """Paths at and beyond what the one-byte word count can say (255 words): every path the encoder returns parses back to the segments,
+    the others are refused with DataError - never a wrapped count."""
+    import pycomm3.cip as C
+    from pycomm3.packets.util import tag_request_path
+
+    for words in (250, 254, 255, 256, 257, 300, 511, 512):
+        forms = {
+            "members": ([C.DataSegment("t")] + [C.LogicalSegment(7, "member_id")] * (words - 2), [("symbol", "t")] + [("member", 7)] * (words - 2)),
+            "symbols": ([C.DataSegment("abcd")] * (words // 3) + [C.LogicalSegment(1, "member_id")] * (words % 3), [("symbol", "abcd")] * (words // 3) + [("member", 1)] * (words % 3)),
+            "hops": ([C.PortSegment("bp", 1)] * words, [("port", 1, b"\x01")] * words),
+        }
+        for fname, (segs, want) in forms.items():
+            r = _enc(C.PADDED_EPATH.encode, segs, length=True)
+            if r[0] == "ok":
+                p = _parse(r[1], counted=True)
+                ok = p == ("ok", want)
+            else:
+                ok = r[0] == "dataerror" and words > 255
+            rep.case(("longpath", fname, words), outcome=r[0] if ok else "bad")
+            if not ok:
+                rep.violation(f"epath/long-path/{'accepted' if r[0] == 'ok' else r[0]}", f"PADDED_EPATH.encode({words} words of {fname}, length=True) -> {(r[1][:8].hex() + '…') if r[0] == 'ok' else r!r}: " + ("does not parse back to the segments (count byte vs bytes that follow)" if r[0] == "ok" else "a path that fits was refused"),
+                              {"kind": "longpath"})
+    # the same through a tag request: 13 nested 40-character names
+    for depth in (5, 12, 13, 14, 30):
+        tag = ".".join(["n" * 40] * depth)
+        r = _enc(lambda: tag_request_path(tag, {"instance_id": 5}, False) or b"")
+        ok = (r[0] == "ok" and _parse(r[1], counted=True) == ("ok", E.tag_segments(tag))) or (r[0] != "ok" and r[0] != "foreign" and depth * 21 > 255) or (r[0] == "ok" and r[1] == b"" and depth * 21 > 255)
+        rep.case(("longtag", depth), outcome=r[0] if ok else "bad")
+        if not ok:
+            rep.violation("epath/long-path/tag", f"tag_request_path of {depth} nested 40-character names -> {(r[1][:8].hex() + '…') if r[0] == 'ok' else r!r}: neither the intended path nor a refusal", {"kind": "longpath"})
 
 
 def check_segment_histories(rep):
@@ -592,6 +625,8 @@ def run_shard(shard, tier, seed):
         check_epathopts(rep)
     elif k == "seghist":
         check_segment_histories(rep)
+    elif k == "longpath":
+        check_long_paths(rep)
     elif k == "tags":
         check_tags(rep, shard[1], tier)
     elif k == "driver-paths":
@@ -637,6 +672,8 @@ def replay(r):
         check_epathopts(rep)
     elif k == "seghist":
         check_segment_histories(rep)
+    elif k == "longpath":
+        check_long_paths(rep)
     elif k == "tag":
         from pycomm3.packets.util import tag_request_path
         use_ids = r["mode"].startswith("id")
